@@ -62,7 +62,7 @@ Section ListIo.
   (* the items taken by load_items, and the state after, are wf *)
   Ltac open_state s W := destruct s; destruct W; st_cbn_all.
 
-  Lemma list_add_safe : sem_safe (pure list_add).
+  Lemma list_add_safe : sem_safe0 (pure list_add).
   Proof.
     safe_intro unf_list.
     destruct sivec as [|ids r]; [wf_leaf|]. wf_hyps.
@@ -73,7 +73,7 @@ Section ListIo.
     clear L W0. open_state s2 W2. unf_state. pose proof (wf_mk_record items Wi). wf_leaf.
   Qed.
 
-  Lemma list_set_safe : sem_safe (pure list_set).
+  Lemma list_set_safe : sem_safe0 (pure list_set).
   Proof.
     safe_intro unf_list.
     destruct sint as [|idx ir]; [wf_leaf|].
